@@ -674,6 +674,45 @@ def inert_by_statement(case, i, item):
     return False
 
 
+def expected_callbacks(case):
+    """which application callbacks the listener of hA must invoke, in order (model-free)"""
+    outstanding = {}
+    per_key = collections.Counter()
+    asked = collections.defaultdict(list)       # b-client -> [(key, id)] in the order it was asked
+    for op in case['setup']:
+        if op['op'] == 'emit' and op['via'] == HA and op['cb'] is not None:
+            key = op['to']['s']
+            per_key[key] += 1
+            outstanding[(key, per_key[key])] = op['cb']
+            asked[key].append((key, per_key[key]))
+    out = []
+    for i, it in enumerate(case['stream']):
+        fault = case['faults'].get(str(i))
+        hit = None
+        if it['k'] == 'op' and it['op']['op'] == 'ack':
+            op = it['op']
+            if op['n'] < len(asked[op['sid']]):
+                hit = (asked[op['sid']][op['n']], list(op['args']))
+        elif it['k'] == 'raw' and it['g']['t'] in ('pickle', 'dict', 'json') and isinstance(it['g']['v'], dict):
+            v = it['g']['v']
+            if v.get('method') == 'callback' and v.get('host_id') == HA and isinstance(v.get('sid'), dict) \
+                    and '$sid' in v['sid'] and isinstance(v.get('id'), int) and not isinstance(v.get('id'), bool):
+                a = v.get('args')
+                if isinstance(a, dict) and '$tuple' in a:
+                    a = a['$tuple']
+                if isinstance(a, (str, dict)):
+                    a = list(a)                 # `callback(*args)` unpacks characters / keys
+                if isinstance(a, list):
+                    hit = ((v['sid']['$sid'], v['id']), list(a))
+                elif 'args' in v and (a is None or isinstance(a, (int, float))):
+                    outstanding.pop((v['sid']['$sid'], v['id']), None)     # removed, never invoked
+        if hit and hit[0] in outstanding:
+            out.append(('cb', outstanding.pop(hit[0]), hit[1]))
+            if fault == 'fatal':
+                break
+    return out
+
+
 def compare_runs(with_g, without_g):
     bad = []
     for key in ('frames', 'app', 'rooms', 'cbs', 'pub', 'ended'):
@@ -711,11 +750,12 @@ def judge(ctx, drv, family, case):
         for f in fr:
             if f[0] == 'event' and f[2] and isinstance(f[2][0], str) and f[2][0] in own:
                 bad_oracle.append('hA re-applied its own emit %r' % (f[2][0],))
-    # 4. a callback for another host completes nothing: forged callbacks carry 'forged'
-    for a in obs['app']:
-        if a[0] == 'cb' and a[2][:1] == ['forged']:
-            # legitimate only when the forged message named hA and an outstanding id
-            pass
+    # 4. callbacks: an acknowledgement addressed to hA completes the callback it names, once; one
+    #    addressed to anybody else completes nothing
+    want_cb = expected_callbacks(case)
+    got_cb = [a for a in obs['app'] if a[0] == 'cb']
+    if jl(got_cb) != jl(want_cb):
+        bad_oracle.append('callbacks invoked %r, required %r' % (got_cb, want_cb))
     if bad_oracle:
         ctx.violation('oracle', '%s: %s' % (family, bad_oracle[0]),
                       dict(case, family=family, failures=bad_oracle[:6], observed=jl(obs)))
@@ -998,8 +1038,7 @@ def run(ctx):
                 nontriv.add(hashlib.sha1(json.dumps(case, sort_keys=True).encode()).hexdigest())
                 if len(samples) < 2 and len(case['stream']) <= 8:
                     samples.append(case)
-        if ctx.thorough or os.environ.get('VERIF_C15_REDIS'):
-            redis_part(ctx, drv)
+        redis_part(ctx, drv)
     finally:
         drv.close()
     ctx.coverage.update({
@@ -1015,7 +1054,8 @@ def run(ctx):
         '(falsy containers as namespaces, tuples as room names for room operations, unhashable ack ids, objects '
         'whose unpickling runs code) are not generated',
         'BaseException raised by application code ends the listener by design (asyncio: cancellation)',
-        'the Redis part runs in the thorough tier (or with VERIF_C15_REDIS=1) against a fake `redis` package',
+        'the Redis retry loops run against a fake `redis` package (the real one is not installed); more plans '
+        'in the thorough tier',
     ]
 
 
